@@ -78,3 +78,48 @@ def build_tabular_policy(spec, polspec, mdp, view):
         for a, w in row:
             data[si, al.index(view.A[a])] = w / tot
     return TabularPolicy.from_state_action_lists(state_list=sl, action_list=al, data=data)
+
+
+def build_pomdp(spec):
+    """A TabularPOMDP subclass instance over the decoded labels (the way repo domains are written)."""
+    from msdm.core.pomdp import TabularPOMDP
+    from msdm.core.distributions import DictDistribution
+    v = SpecView(spec)
+    S, A, sidx, aidx = v.S, v.A, v.sidx, v.aidx
+    OL = [dec(x) for x in spec["olabels"]]
+    v.OL = OL
+    v.oidx = {o: i for i, o in enumerate(OL)}
+    rew = {}
+    for (s, a), outs in v.outs.items():
+        for ns, p, r in outs:
+            rew[(s, a, ns)] = r
+    obs = {}
+    for a in range(spec["m"]):
+        for ns in range(spec["n"]):
+            row = spec["obs"][a][ns]
+            tot = sum(w for _, w in row)
+            obs[(a, ns)] = {OL[o]: w / tot for o, w in row}
+
+    class SpecPOMDP(TabularPOMDP):
+        def __init__(self):
+            self.discount_rate = v.gamma
+
+        def next_state_dist(self, s, a):
+            return DictDistribution({S[ns]: p for ns, p, r in v.outs[(sidx[s], aidx[a])]})
+
+        def reward(self, s, a, ns):
+            return rew[(sidx[s], aidx[a], sidx[ns])]
+
+        def actions(self, s):
+            return tuple(A[a] for a in v.avail[sidx[s]])
+
+        def initial_state_dist(self):
+            return DictDistribution({S[s]: p for s, p in v.p0})
+
+        def is_absorbing(self, s):
+            return bool(spec["absorbing"][sidx[s]])
+
+        def observation_dist(self, a, ns):
+            return DictDistribution(obs[(aidx[a], sidx[ns])])
+
+    return SpecPOMDP(), v
